@@ -43,10 +43,13 @@ class Status:
 
     @property
     def progress(self) -> float:
+        if self.n_total == 0:  # nothing to do, e.g., a map over an empty axis
+            return 1.0
         return self.n_completed / self.n_total
 
     def elapsed_time(self) -> float:
-        assert self.start_time is not None
+        if self.start_time is None:  # never started, e.g., a map over an empty axis
+            return 0.0
         if self.end_time is None:
             return time.monotonic() - self.start_time
         return self.end_time - self.start_time
